@@ -709,13 +709,16 @@ func (e *integEngine) observe() {
 				if vp := c.ParkedOf("sched-visit"); len(vp) > 0 {
 					// the pass is suspended between two visits: one goroutine that is ready to go
 					// (a launched stage, a process about to complete) runs now, then the pass goes on
-					var ready []*Park
-					for _, q := range e.eligible() {
-						if q.Kind != "driver" && q.Kind != "finish" && q.Kind != "sched-visit" {
-							ready = append(ready, q)
+					for n := 1 + c.Ch.Choose(3, "midpass-how-many"); n > 0; n-- {
+						var ready []*Park
+						for _, q := range e.eligible() {
+							if q.Kind != "driver" && q.Kind != "finish" && q.Kind != "sched-visit" {
+								ready = append(ready, q)
+							}
 						}
-					}
-					if len(ready) > 0 {
+						if len(ready) == 0 {
+							break
+						}
 						c.Count("midpass_interleavings")
 						e.releasePark(ready[c.Ch.Choose(len(ready), "midpass-who")])
 						c.Quiesce()
